@@ -152,10 +152,15 @@ pub fn check_rng_sites() -> Result<(), String> {
     if e != found {
         let missing: Vec<_> = e.iter().filter(|x| !found.contains(x)).collect();
         let extra: Vec<_> = found.iter().filter(|x| !e.contains(x)).collect();
-        return Err(format!(
-            "RNG call sites in /repo/src differ from /verif/rng_sites.allow (unowned nondeterminism?): not found {:?}, unexpected {:?} (counts matter)",
+        // Not a verdict and not fatal: the exploration still runs (a new random draw in a
+        // deterministic path shows up as a determinism violation or as a replay divergence), but the
+        // run can no longer claim to have enumerated every schedule, and says so.
+        let msg = format!(
+            "RNG call sites in /repo/src differ from /verif/rng_sites.allow: not found {:?}, unexpected {:?} - draws at a site without a seam are not owned, the schedule enumeration is incomplete for them",
             missing, extra
-        ));
+        );
+        eprintln!("WARNING: {}", msg);
+        mc::driver::note_cap(msg);
     }
     Ok(())
 }
